@@ -82,6 +82,7 @@ func runC17(c *Ctx) {
 			runRepScenario(c, fl, 30)
 		}
 		runPushScenario(c, i%2 == 0, 30, []int{1, 2})
+		runPullScenario(c, i%2 == 0, 40)
 		runPairScenario(c, i%2 == 0, 30, true)
 		ledgerCheck(c, "protocol machine scenarios over virtual pipes", map[string]interface{}{"round": i, "seed": c.Seed})
 	}
